@@ -28,20 +28,25 @@ OUT_ITEMS = [
     ("Q", "Q: str = 'q'\n"),
     ("AA", "class AA(object):\n    att: int = 30\n\n    def mm(self, u: int, v=20):\n        return u\n"),
     ("gg", "def gg(u, v: int = 7, *, w=None):\n    return u\n"),
+    # module-level names equal to the class attribute / an argument name, to tempt a lookup by simple name
+    ("shadow", "att: int = 99\nu: int = 98\n"),
 ]
-EVAL_PREFIX = "from typing import Optional\nVALS = ('a', 'b')\nNUMS = (1, 2, 3)\n"
+EVAL_PREFIX = "from typing import Optional\nVALS = ('a', 'b', {tag!r})\nNUMS = (1, 2, {num})\n"
 IN_LOCS = ["Y", "A.attr", "A.opt", "A.m.a", "A.m.b", "g.a", "g.b", "g.k"]
 OUT_LOCS = ["Q", "AA.att", "AA.mm.u", "AA.mm.v", "gg.u", "gg.v", "gg.w"]
 BAD_IN = ["Z", "A.zz", "g.zz"]
 BAD_OUT = ["ZZ", "gg.zz", "AA.mm.zz"]
 WRAP = "Optional[{output_param}]"
 ORDERS = list(itertools.permutations(range(3)))
+# output module orders: the 6 orders of the three definitions, each with the shadowing assignments first, last or absent
+OUT_ORDERS = [o + t for o in ORDERS for t in ((), (3,))] + [(3,) + o for o in ORDERS]
 
 
 def build_cases(tier):
     cases = []
     orders_in = range(6)
-    orders_out = range(6)
+    # quick: the 6 plain orders plus 3 with the shadowing assignments in front and 3 with them behind
+    orders_out = range(len(OUT_ORDERS)) if tier == "thorough" else [0, 2, 4, 6, 8, 10, 1, 5, 9, 12, 14, 16]
     # single pairs: everything
     for oi in orders_in:
         for oo in orders_out:
@@ -51,10 +56,10 @@ def build_cases(tier):
                         if (i in BAD_IN or o in BAD_OUT) and wrap:
                             continue
                         cases.append({"oi": oi, "oo": oo, "pairs": [[i, o]], "wrap": wrap, "eval": False, "via": "api"})
-                        if not wrap and (tier == "thorough" or oi == oo):
+                        if not wrap and (tier == "thorough" or oi * 2 == oo):
                             cases.append({"oi": oi, "oo": oo, "pairs": [[i, o]], "wrap": wrap, "eval": False, "via": "cli"})
     # several pairs per call: class-first and function-first orders
-    multi_orders = [(0, 0), (5, 5)] if tier == "quick" else [(a, b) for a in (0, 2, 5) for b in (0, 3, 5)]
+    multi_orders = [(0, 0), (5, 10), (0, 12)] if tier == "quick" else [(a, b) for a in (0, 2, 5) for b in (0, 6, 10, 12, 15)]
     ins2 = ["Y", "g.a", "A.attr"]
     for oi, oo in multi_orders:
         for o1, o2 in itertools.permutations(OUT_LOCS, 2):
@@ -75,17 +80,19 @@ def build_cases(tier):
             for name in ("VALS", "NUMS"):
                 for o in OUT_LOCS + BAD_OUT[:1]:
                     cases.append({"oi": oi, "oo": oo, "pairs": [[name, o]], "wrap": False, "eval": True, "via": "api"})
-                    if oi == oo:
+                    if oi * 2 == oo:
                         cases.append({"oi": oi, "oo": oo, "pairs": [[name, o]], "wrap": False, "eval": True, "via": "cli"})
     return cases
 
 
 def module_src(items, order, prefix=""):
-    return prefix + "\n".join(items[i][1] for i in ORDERS[order])
+    table = OUT_ORDERS if items is OUT_ITEMS else ORDERS
+    return prefix + "\n".join(items[i][1] for i in table[order])
 
 
 def order_name(items, order):
-    return ">".join(items[i][0] for i in ORDERS[order])
+    table = OUT_ORDERS if items is OUT_ITEMS else ORDERS
+    return ">".join(items[i][0] for i in table[order])
 
 
 # ----------------------------------------------------------------------------- structural addressing / masking
@@ -169,7 +176,7 @@ class _Space(core.Space):
         return self.cases[i]
 
     def describe(self):
-        return {"calls": len(self.cases), "input_orders": 6, "output_orders": 6, "input_locations": IN_LOCS + BAD_IN,
+        return {"calls": len(self.cases), "input_orders": 6, "output_orders": len(OUT_ORDERS), "input_locations": IN_LOCS + BAD_IN,
                 "output_locations": OUT_LOCS + BAD_OUT}
 
 
@@ -197,7 +204,10 @@ class C14(core.Check):
             import atexit
 
             atexit.register(shutil.rmtree, self._dir, True)
-        in_src = module_src(IN_ITEMS, case["oi"], EVAL_PREFIX if case["eval"] else "from typing import Optional\n")
+        # the evaluated values differ from call to call (a stale evaluation of an earlier input would show)
+        self._calls = getattr(self, "_calls", 0) + 1
+        tag, num = "t%d" % (self._calls % 7), 10 + self._calls % 5
+        in_src = module_src(IN_ITEMS, case["oi"], EVAL_PREFIX.format(tag=tag, num=num) if case["eval"] else "from typing import Optional\n")
         out_src = module_src(OUT_ITEMS, case["oo"])
         fin, fout = os.path.join(self._dir, "input_mod.py"), os.path.join(self._dir, "output_mod.py")
         with open(fin, "w") as f:
@@ -276,7 +286,7 @@ class C14(core.Check):
                 sites.append(site(False, f, fail="addressed_node_missing"))
                 continue
             if case["eval"]:
-                vals = {"VALS": ("a", "b"), "NUMS": (1, 2, 3)}[p[0]]
+                vals = {"VALS": ("a", "b", tag), "NUMS": (1, 2, num)}[p[0]]
                 want = ast.dump(ast.parse("Literal[%s]" % ", ".join(repr(v) for v in vals), mode="eval").body)
             else:
                 ann = annotation_of(inn)
